@@ -9,6 +9,7 @@ import (
 	"flag"
 	"fmt"
 	"os"
+	"runtime/pprof"
 	"strconv"
 	"strings"
 
@@ -81,14 +82,26 @@ func main() {
 		fs.StringVar(&a.Out, "out", "", "")
 		fs.StringVar(&a.Impl, "impl", "", "")
 		fs.IntVar(&a.Only, "only", -1, "")
+		var prof string
+		fs.StringVar(&prof, "cpuprofile", "", "")
 		fs.Parse(os.Args[2:])
+		if prof != "" {
+			if f, err := os.Create(prof); err == nil {
+				pprof.StartCPUProfile(f)
+				defer pprof.StopCPUProfile()
+			}
+		}
 		a.Seed, _ = strconv.ParseUint(seed, 10, 64)
 		p := props.Get(a.Prop)
 		if p == nil {
 			fmt.Fprintln(os.Stderr, "unknown property", a.Prop)
 			os.Exit(2)
 		}
-		os.Exit(mon.RunChild(p, a))
+		rc := mon.RunChild(p, a)
+		if prof != "" {
+			pprof.StopCPUProfile()
+		}
+		os.Exit(rc)
 	case "check", "replay":
 		fs := flag.NewFlagSet(os.Args[1], flag.ExitOnError)
 		var prop, tier, bins, verif, work, impl, file string
